@@ -467,12 +467,27 @@ namespace
       for(int r = 0; r < p; ++r) order.push_back(r);
       if(variant % 3 == 1) std::reverse(order.begin(), order.end());
       if(variant % 3 == 2) std::rotate(order.begin(), order.begin() + p / 2, order.end());
+      // variant: the base mesh is permuted first and the partition follows through Partition::permute (cell indices mapped by the
+      // inverse cell permutation); every rank must then still own the same geometric cells
       Partition partition(graph.clone(), "vf");
+      std::vector<std::set<GKey>> owned;
+      const bool permute_base = ((variant / 12) % 2 == 1);
+      if(permute_base)
+      {
+        vm::PMesh B0; std::string err; vm::extract_mesh(B0, *base->get_mesh(), qtot, &err);
+        owned.resize(size_t(p));
+        for(int r = 0; r < p; ++r) for(auto it = graph.image_begin(Index(r)); it != graph.image_end(Index(r)); ++it) owned[size_t(r)].insert(gkey(B0, dim, *it));
+        static const PermutationStrategy strat[4] = {PermutationStrategy::random, PermutationStrategy::lexicographic, PermutationStrategy::colored, PermutationStrategy::cuthill_mckee_reversed};
+        base->create_permutation(strat[(variant / 24) % 4]);
+        partition.permute(base->get_mesh()->get_mesh_permutation().get_inv_perm(dim));
+        c.count("permuted_partitions");
+      }
+      const Adjacency::Graph& graph_used = permute_base ? partition.get_patches() : graph;
       for(int r : order)
       {
         std::vector<int> comm;
         leaves[size_t(r)].rank = r;
-        if((variant / 3) % 2 == 0) leaves[size_t(r)].node = base->extract_patch(comm, graph, r);
+        if((variant / 3) % 2 == 0) leaves[size_t(r)].node = base->extract_patch(comm, graph_used, r);
         else leaves[size_t(r)].node = base->extract_patch(comm, partition, r);
         collect_comm(leaves[size_t(r)], comm);
         c.count("patches_extracted");
@@ -481,7 +496,7 @@ namespace
       {
         const int r = order[0];
         std::vector<int> comm;
-        std::unique_ptr<NodeType> again = base->extract_patch(comm, graph, r);
+        std::unique_ptr<NodeType> again = base->extract_patch(comm, graph_used, r);
         std::string d = node_diff(*leaves[size_t(r)].node, *again, qtot);
         std::set<int> cs(comm.begin(), comm.end());
         if(d.empty() && (cs != leaves[size_t(r)].comm || cs.size() != comm.size())) d = "comm_ranks differ";
@@ -491,7 +506,7 @@ namespace
         d = node_diff(*base, *bc, qtot);
         c.check(d.empty(), "clone.base", [&]{ return "clone_unique() of the base node differs: " + d; });
         bc->clear_patches();
-        for(int q : order) bc->create_patch_meshpart(graph, q);
+        for(int q : order) bc->create_patch_meshpart(graph_used, q);
         for(int q = 0; q < p; ++q)
         {
           const PartType* p1 = base->get_patch(q); const PartType* p2 = bc->get_patch(q);
@@ -524,11 +539,28 @@ namespace
         }
         if(!check_level(c, *base, leaves, qtot, "level " + vm::str(lvl), true)) return;
         c.count("levels_checked");
-        if(lvl == 0 && !check_vector_overload(c, *base, graph, leaves, qtot)) return;
+        if(lvl == 0 && permute_base)
+        {
+          for(Leaf& L : leaves)
+          {
+            std::set<GKey> have; for(Index e = 0; e < L.pm.n[dim]; ++e) have.insert(gkey(L.pm, dim, e));
+            c.check(have == owned[size_t(L.rank)], "partition.permute", [&]{ return "after Partition::permute with the mesh's inverse cell permutation rank " + vm::str(L.rank) + " owns " + vm::str(have.size()) + " cells, not the " + vm::str(owned[size_t(L.rank)].size()) + " geometric cells assigned to it"; });
+          }
+        }
+        if(lvl == 0 && !check_vector_overload(c, *base, graph_used, leaves, qtot)) return;
         // every patch re-extracted as a whole through the vector overload with split_halos=true: all its halos
         // (ascending neighbour rank: edge halos followed by single-vertex halos and vice versa) and parts must survive unchanged
         if(lvl == 0) for(Leaf& L : leaves)
           if(!check_split_halos(c, *L.node, std::vector<int>(size_t(L.pm.n[dim]), 0), 0, qtot)) return;
+      }
+      // finally every patch node is permuted on its own (RootMeshNode::create_permutation moves halos, patches and parts along):
+      // the halos of neighbouring patches must still describe the same shared entities in the same order
+      if((variant / 2) % 2 == 1)
+      {
+        static const PermutationStrategy strat[5] = {PermutationStrategy::random, PermutationStrategy::lexicographic, PermutationStrategy::colored, PermutationStrategy::cuthill_mckee, PermutationStrategy::geometric_cuthill_mckee_reversed};
+        for(Leaf& L : leaves) if(!L.node->get_mesh()->is_permuted()) L.node->create_permutation(strat[size_t(L.rank + variant) % 5]);
+        if(!check_level(c, *base, leaves, qtot, "after create_permutation of every patch node", false)) return;
+        c.count("permuted_patch_levels_checked");
       }
       c.outcome("ok ranks=" + vm::str(p));
     }
@@ -701,7 +733,7 @@ namespace
         const int qtot = 3 * depth;
         auto base = X::make_base(ms, qtot, int(code % 18));
         Adjacency::Graph g = make_graph(a, p, int(code % 3));
-        X::run_partition(c, std::move(base), g, depth, qtot, int(code % 12));
+        X::run_partition(c, std::move(base), g, depth, qtot, int(code % 96));
         c.nontrivial(verif::Hash().pod(ms.simplex).pod(ms.dim).str(ms.name).pod(ms.cells.size()).pod(p).str(assign_str(a)).pod(depth).get());
       } while(next_assign(a, p));
     }
@@ -875,7 +907,8 @@ int main(int argc, char** argv)
     "the message exchange of the recursive halo splitting (Dist::Comm gather/send/bcast) is replaced by handing over the serialized buffers; the buffer layout and all PatchHaloSplitter calls are the real ones",
     "PartiIterative: time(nullptr) and gettimeofday are interposed (seed enumerated, 1 virtual second per clock read); freshly allocated memory is poisoned with mallopt(M_PERTURB)",
     "partitions are disjoint (one rank per cell); overlapping partitions are not generated",
-    "control-layer naive/METIS/Zoltan partitioners are outside the build (need MPI / third-party)"};
+    "the control layer (control/domain/parti_domain_control*.hpp: partitioner selection incl. naive / extern / 2-level / genetic, real message exchange of the halo splitting) is driven by the companion harness c12_control.mpi over the MPI model; METIS / Zoltan are not in the build",
+    "out of scope here: bytes()/name(), MeshNode::adapt/adapt_by_name, rename/remove of mesh parts (exercised in c10_refine), chart adaption of patches (exercised in c12_control)"};
   spec.case_timeout_s = 120;
   const char* vr = std::getenv("VERIF_REPO");
   const std::string repo = vr ? vr : "/repo";
@@ -909,6 +942,59 @@ int main(int argc, char** argv)
         vm::MeshSpec fb = load_file_spec(repo + "/data/meshes/flowbench_s3d_01_hexa_11.xml", false, 3);
         if(!fb.cells.empty()) do_assignments<H>(c, fb, 2, 2, 1, "assign");
       }
+    }
+    // ---- part 1b: Partition / PartitionSet (selection of an extern partition by size, names and priority)
+    if(c.want())
+    {
+      c.desc([&]{ return std::string("PartitionSet::find_partition over all sets of <= 2 partitions (size 2|3, name a|b, priority -1..2) x queries (size 2..4, name lists, priority 0..3)"); });
+      struct PS { int size; const char* name; int prio; };
+      std::vector<PS> opts;
+      for(int sz : {2, 3}) for(const char* nm : {"a", "b"}) for(int pr : {-1, 0, 1, 2}) opts.push_back({sz, nm, pr});
+      auto mk = [&](const PS& o, int level) {
+        std::vector<int> a(4, 0); for(int i = 0; i < 4; ++i) a[size_t(i)] = i % o.size;
+        return Partition(make_graph(a, o.size, 0), o.name, o.prio, level); };
+      const std::vector<std::deque<String>> qnames = {{}, {"a"}, {"b"}, {"a", "b"}, {"c"}, {"c", "b"}};
+      uint64_t nq = 0;
+      for(size_t i = 0; i <= opts.size(); ++i) for(size_t j = 0; j <= opts.size(); ++j)
+      {
+        if(i == opts.size() && j != opts.size()) continue;
+        PartitionSet ps; std::vector<PS> in;
+        if(i < opts.size()) { ps.add_partition(mk(opts[i], 0)); in.push_back(opts[i]); }
+        if(j < opts.size()) { ps.add_partition(mk(opts[j], 1)); in.push_back(opts[j]); }
+        c.check(ps.get_partitions().size() == in.size(), "partitionset.size", "add_partition lost a partition");
+        for(size_t k = 0; k < in.size(); ++k)
+        {
+          const Partition& P = ps.get_partitions().at(k);
+          c.check(int(P.size()) == in[k].size && int(P.get_num_patches()) == in[k].size && P.get_num_elements() == 4 && P.get_name() == in[k].name && P.get_priority() == in[k].prio && P.get_level() == int(k),
+            "partition.getters", "Partition getters do not return the constructor arguments");
+        }
+        for(int qs = 2; qs <= 4; ++qs) for(const auto& qn : qnames) for(int qp = 0; qp <= 3; ++qp)
+        {
+          // oracle: candidates = size matches, name in list (or list empty), priority > 0 and >= qp; the highest priority wins, later entries win ties
+          int want = -1;
+          for(size_t k = 0; k < in.size(); ++k)
+          {
+            bool nameok = qn.empty(); for(const auto& n : qn) if(n == in[k].name) nameok = true;
+            if(in[k].size != qs || !nameok || in[k].prio <= 0 || in[k].prio < qp) continue;
+            if(want < 0 || in[size_t(want)].prio <= in[k].prio) want = int(k);
+          }
+          const Partition* got = ps.find_partition(qs, qn, qp);
+          const int gi = got == nullptr ? -1 : (got == &ps.get_partitions().at(0) ? 0 : 1);
+          c.check(gi == want, "partitionset.find_partition", [&]{ return "find_partition(size " + std::to_string(qs) + ", " + std::to_string(qn.size()) + " names, prio " + std::to_string(qp) + ") returned entry " + std::to_string(gi) + ", expected " + std::to_string(want); });
+          if(qn.size() <= 1)
+          {
+            const Partition* g1 = ps.find_partition(qs, qn.empty() ? String("") : qn.front(), qp);
+            c.check(g1 == got, "partitionset.find_partition.single-name", "single-name overload disagrees with the name-list overload");
+          }
+          ++nq;
+        }
+        PartitionSet moved(std::move(ps));
+        c.check(moved.get_partitions().size() == in.size(), "partitionset.move", "move construction lost partitions");
+        moved.clear();
+        c.check(moved.get_partitions().empty() && moved.find_partition(2) == nullptr, "partitionset.clear", "clear() left partitions behind");
+      }
+      c.count("partitionset_queries", nq);
+      c.nontrivial(verif::Hash().str("partitionset").get());
     }
     // ---- part 2: recursive partitions
     {
